@@ -300,8 +300,12 @@ func (r restServerProtocol) addProtocolRequestHeaders(meta requestMeta, headers 
 func (r restServerProtocol) extractProtocolResponseHeaders(statusCode int, headers http.Header) (responseMeta, responseEndUnmarshaller, error) {
 	contentType := headers.Get("Content-Type")
 	if statusCode/100 != 2 {
+		// An error body is an HTTP body like any other: it may be compressed.
+		compression := headers.Get("Content-Encoding")
+		headers.Del("Content-Encoding")
 		return responseMeta{
-				end: &responseEnd{httpCode: statusCode},
+				compression: compression,
+				end:         &responseEnd{httpCode: statusCode, wasCompressed: compression != ""},
 			}, func(_ Codec, buf *bytes.Buffer, end *responseEnd) {
 				if err := httpErrorFromResponse(statusCode, contentType, buf); err != nil {
 					end.err = err
